@@ -203,9 +203,12 @@ fn generate(cfg: &VCfg) -> (Vec<Item>, BTreeMap<Blk, Blk>) {
                 let id = VoteId { v, kind: k, slot: s, tag: t };
                 if kernel::choose(G, 12) != 0 {
                     items.push(Item::Vote(id));
+                } else {
+                    kernel::fault("vote_never_delivered");
                 }
                 if kernel::choose(G, 10) == 0 {
                     items.push(Item::Vote(id)); // duplicate delivery
+                    kernel::fault("duplicate_delivery");
                 }
             }
         }
@@ -239,6 +242,7 @@ fn order(mut items: Vec<Item>, cfg: &VCfg) -> Vec<Item> {
         let j = i - kernel::choose(O, (i + 1) as u64) as usize;
         items.swap(i, j);
     }
+    kernel::fault("reordered_delivery");
     // forced-last trigger for C06: own vote / a block registration / a parent certificate
     match kernel::choose(O, 5) {
         1 => {
